@@ -23,10 +23,13 @@ def run(ctx, spec):
     env.setup()
     cands = wlxml.shipped(env.REPO)
     rng = ctx.rng
-    for i in range(spec['n']):
-        st = streams.build(rng, cands, k=1, n_each=tuple(spec['len']), tagged=rng.random() < 0.3,
-                           opts={'dead_mention': rng.choice([0.15, 0.5]), 'equal_times': rng.choice([0.2, 0.6]),
-                                 'big_gaps': rng.choice([0.1, 0.4])})
+    for i in range(spec['n'] + (1 if spec.get('shard') == 0 else 0)):
+        if i == spec['n']:
+            st = streams.build(rng, cands, k=1, n_each=3600, tagged=False, opts={'hot': 1.0, 'reuse_bias': 1.0, 'prompt_delete': 1.0, 'first': 'get_registry'})
+        else:
+            st = streams.build(rng, cands, k=1, n_each=tuple(spec['len']), tagged=rng.random() < 0.3,
+                               opts={'dead_mention': rng.choice([0.15, 0.5]), 'equal_times': rng.choice([0.2, 0.6]),
+                                     'big_gaps': rng.choice([0.1, 0.4]), 'tie_prefix': rng.choice([0, 0, 0, 6, 15, 40])})
         entries = st['entries']
         online = []
 
